@@ -1,3 +1,7 @@
 open Datatypes
 
 val add : nat -> nat -> nat
+
+val mul : nat -> nat -> nat
+
+val sub : nat -> nat -> nat
